@@ -92,6 +92,29 @@ func TestGovcReplay(t *testing.T) {
 	govcSearchAlphabet = saved[:12]
 	rec("", 5)
 	govcSearchAlphabet = saved
+	// parser-level: all sequences of up to 4 lexically valid fragments (space separated), each followed
+	// by nothing, by a comment running to the end of the input, and by a terminating ';'
+	frags := []string{"a", "x:int", "n:#", "x:n.", "x:n.0?int", "(", ")", "+", "1", "foo<", ">", ",", "[", "]", "=", "A", ";", "// c", "@m", "#", "%", "!", "?", "{t:Type}", "*", "ns.a", "=>"}
+	var prec func(prefix string, depth int)
+	prec = func(prefix string, depth int) {
+		for _, tail := range []string{"", " // to be continued", ";"} {
+			n++
+			if m := govcSearchOne(prefix+tail, TL1); m != "" {
+				t.Fatalf("FOUND: input %q (language 0): %s", prefix+tail, m)
+			}
+		}
+		if depth == 0 {
+			return
+		}
+		for _, f := range frags {
+			if prefix == "" {
+				prec(f, depth-1)
+			} else {
+				prec(prefix+" "+f, depth-1)
+			}
+		}
+	}
+	prec("", 4)
 	for _, text := range []string{
 		"foo = Foo; // caf\xe9", "int#a8509bda ? = Int;\nbar y:(foo int) = Bar;", "testNs.testName<x:Type", "a.B c:d.E = F.g;", "@x @y a = A;",
 		"---types---\n---functions---\n@read f#00000001 = Int;", "a#1234567 = A;", "a#123456789 = A;", "Hren.vam", "x.", ".x", "//\r", "/*", "\r\r\n",
